@@ -2,7 +2,12 @@ use crate::runner::PropertyDef;
 
 pub mod c01;
 pub mod c02;
+pub mod c03;
 
 pub fn all() -> Vec<(&'static str, fn() -> PropertyDef)> {
-    vec![("C01", c01::def as fn() -> PropertyDef), ("C02", c02::def)]
+    vec![
+        ("C01", c01::def as fn() -> PropertyDef),
+        ("C02", c02::def as fn() -> PropertyDef),
+        ("C03", c03::def as fn() -> PropertyDef),
+    ]
 }
